@@ -50,7 +50,18 @@ fn render_app(target: &str, nested: bool) -> String {
             let app = view! {
                 <Router>
                     <Routes fallback=|| "[[nomatch]]">
-                        <ParentRoute path=path!("/o/:org") view=|| view! { <Outlet/> }>
+                        <ParentRoute path=path!("/o/:org") view=|| {
+                            // the LAYOUT reads the parameters too (its own and, reactively, its child's)
+                            let params = use_params_map();
+                            view! {
+                                {move || {
+                                    let p = params.get();
+                                    let f = |k: &str| p.get(k).map(|v| hex(v.as_bytes())).unwrap_or_else(|| "none".into());
+                                    format!("{{{{{} {}}}}}", f("org"), f("id"))
+                                }}
+                                <Outlet/>
+                            }
+                        }>
                             <Route path=path!("u/:id") view=show/>
                         </ParentRoute>
                         <Route path=path!("/p") view=show/>
@@ -78,6 +89,13 @@ fn render_app(target: &str, nested: bool) -> String {
 fn payload(html: &str) -> Option<Vec<String>> {
     let a = html.find("[[")? + 2;
     let b = html[a..].find("]]")? + a;
+    Some(html[a..b].split(' ').map(String::from).collect())
+}
+
+/// the `{{ … }}` payload the layout of the nested app prints
+fn layout_payload(html: &str) -> Option<Vec<String>> {
+    let a = html.find("{{")? + 2;
+    let b = html[a..].find("}}")? + a;
     Some(html[a..b].split(' ').map(String::from).collect())
 }
 
@@ -217,8 +235,22 @@ fn op(line: &str) -> String {
                 Ok(html) => match payload(&html).as_deref() {
                     Some([org, id, _, _]) => {
                         let want = (hex(once_seg(&s1).as_bytes()), hex(once_seg(&s2).as_bytes()));
-                        let v = if (org.as_str(), id.as_str()) == (want.0.as_str(), want.1.as_str()) { "ok" } else { "fail not-once" };
-                        format!("ok {org} {id} ## {v}")
+                        let mut v = if (org.as_str(), id.as_str()) == (want.0.as_str(), want.1.as_str()) { "ok" } else { "fail not-once" };
+                        // what the parent route's layout read (nested only): its own param, and its child's once the child matched
+                        let lay = if nested {
+                            match layout_payload(&html).as_deref() {
+                                Some([lo, li]) => {
+                                    if lo.as_str() != want.0.as_str() || (li.as_str() != "none" && li.as_str() != want.1.as_str()) {
+                                        v = "fail layout-not-once";
+                                    }
+                                    format!(" layout={lo},{li}")
+                                }
+                                _ => " layout=?".to_string(),
+                            }
+                        } else {
+                            String::new()
+                        };
+                        format!("ok {org} {id}{lay} ## {v}")
                     }
                     _ => "nomatch ## fail nomatch".into(),
                 },
